@@ -467,6 +467,17 @@ theorem tie_nodeTruncateSkeleton : nodeTruncateSkeleton =
    "call fn.truncate",
    "return"] := rfl
 
+/-- contextGroup.Wait waits for EVERY started func (`cg.wg.Wait()` comes first, unconditionally)
+before it returns the first error: dirnode.flush / marshalManifest therefore do not return — and do
+not release the file locks — while one of their sync-mode commitBlock goroutines, which replace
+segments without re-locking or re-validating, is still running. This is what makes MarshalManifest
+one atomic step (Model.C13 `Ev.save`). -/
+theorem tie_cgWaitText : cgWaitText = "{ cg.wg.Wait() cg.mtx.Lock() defer cg.mtx.Unlock() if cg.err != nil { return cg.err } return cg.ctx.Err() }" := rfl
+
+/-- contextGroup.Go: every func is counted in the WaitGroup before its goroutine starts; the first
+error cancels the context (later commitBlock calls return at their `ctx.Err()` check) -/
+theorem tie_cgGoText : cgGoText = "{ cg.mtx.Lock() defer cg.mtx.Unlock() if cg.err != nil { return } cg.wg.Add(1) go func() { defer cg.wg.Done() err := f() cg.mtx.Lock() defer cg.mtx.Unlock() if err != nil && cg.err == nil { cg.err = err cg.cancel() } }() }" := rfl
+
 /-- the two guards of the async commitBlock tail and the three of pruneMemSegments that the model's
 single token test stands for are all present, in this order -/
 theorem tie_guard_order :
